@@ -8,7 +8,7 @@ from ..spec import (ACCEPT, CELLS, COMPLEMENT, CM, FRAUD, GAMMAS, GROUP, SCORES,
                     cell, cm_oracle, exc_name, pc_text, raises, returns, unmodelled_text)
 from ..terms import App, Const, Num, Sym, Tup, add, negate, same, show, to_poly, compare
 from ..typestate import is_sorted, sortedness, pc_implies_sorted
-from ..terms import atoms_of
+from ..terms import atoms_of, is_const
 from .. import libmodel
 
 LEVEL = "proof"
@@ -316,6 +316,21 @@ def constructor_sorted(ctx, chk):
                     else:
                         chk.violation("R01.4", init, inst, "derived score array self.%s = %s (while self.%s = %s)" % (attr, show(v, 120), "pos" if root == P else "neg", show(main, 100)),
                                       "every per-object copy of the scores is ascending like pos / neg themselves (it is searched the same way)", ctx.where(init))
+                # positional reads of the RAW input (its first / last element as the range of the scores) taken before the sort has happened
+                from ..terms import walk as _walk
+                for attr, v in sorted(o.value.attrs.items()):
+                    if attr in ("pos", "neg") or not hasattr(v, "key") or isinstance(v, Obj):
+                        continue
+                    raw_reads = []
+
+                    def _rr(t, raw_reads=raw_reads):
+                        if isinstance(t, App) and t.fn == "getitem" and len(t.args) == 2 and t.args[0] in (P, N) and (is_const(t.args[1]) or (isinstance(t.args[1], App) and t.args[1].fn == "slice")):
+                            raw_reads.append(t)
+                    _walk(v, _rr)
+                    if raw_reads:
+                        chk.violation("R01.4", init, "%s:%s:positional-read-of-unsorted-input" % (init.split(".")[-2], attr),
+                                      "self.%s = %s reads %s of the array as passed in (is_sorted=%s)" % (attr, show(v, 100), show(raw_reads[0], 60), "False" if flag is not None else "default"),
+                                      "derived state computed from the SORTED scores (a subclass constructor that sorts after calling the base constructor leaves it stale)", ctx.where(init))
                 for attr in ("pos", "neg"):
                     v = o.value.attrs.get(attr)
                     inst = "%s:%s:is_sorted=%s" % (init.split(".")[-2], attr, "False" if flag is not None else "default")
